@@ -1058,6 +1058,11 @@ func c06Apply(c *Ctx, p *Prog) {
 			iPhi = phi
 		}
 	}
+	if jPhi == nil && len(ints) == 1 {
+		// the other in-place idiom: kept := values[:0]; kept = append(kept, values[i]); values = kept
+		c06ApplyAppend(c, p, fn, lp, ints[0], valuesF)
+		return
+	}
 	if jPhi == nil || iPhi == nil || len(ints) != 2 {
 		c.Undecided(R, "Apply:indices", site, "read/write indices not recognised")
 		return
@@ -1487,4 +1492,125 @@ func c06Leaf(c *Ctx, p *Prog) {
 		}
 	}
 	c.Floor(R, "leaf verdict paths", n, 4)
+}
+
+// c06ApplyAppend: the compaction written with append onto the emptied slice itself.
+func c06ApplyAppend(c *Ctx, p *Prog, fn *ssa.Function, lp *loopInfo, iPhi *ssa.Phi, valuesF *types.Var) {
+	const R = "C06/R5"
+	site := p.pos(fn.Pos())
+	var kPhi *ssa.Phi
+	for _, in := range lp.Header.Instrs {
+		if phi, ok := in.(*ssa.Phi); ok {
+			if _, isSl := phi.Type().Underlying().(*types.Slice); isSl {
+				kPhi = phi
+			}
+		}
+	}
+	if kPhi == nil {
+		c.Undecided(R, "Apply:indices", site, "read/write indices not recognised")
+		return
+	}
+	// starts as values[:0], ends up stored into values
+	okInit, okFinal := false, false
+	for j, pr := range lp.Header.Preds {
+		if lp.Blocks[pr] {
+			continue
+		}
+		if sl, ok := kPhi.Edges[j].(*ssa.Slice); ok && sl.Low == nil && sl.High != nil {
+			if k, ok := constInt(sl.High); ok && k == 0 {
+				if f, _ := loadOfField(sl.X); f == valuesF {
+					okInit = true
+				}
+			}
+		}
+	}
+	eachInstr(fn, func(b *ssa.BasicBlock, in ssa.Instruction) {
+		if st, ok := in.(*ssa.Store); ok && !lp.Blocks[b] {
+			if f, _ := fieldOfAddr(st.Addr); f == valuesF && st.Val == ssa.Value(kPhi) {
+				okFinal = true
+			}
+		}
+	})
+	c.Check(okInit && okFinal, R, "Apply:kept-slice", site, "the kept slice starts as values[:0] and becomes the result's values", "the slice the kept measurements are appended to does not start as the emptied values slice, or is not stored back as the result's values")
+	start := loopBodyStart(lp)
+	outs, why := e6Enumerate(func() *e6Interp {
+		return &e6Interp{PureCall: func(f *types.Func) bool { return f.Name() == "Test" }}
+	}, start, lp.Header, iterStop(lp, start), 64)
+	if why != "" {
+		c.Undecided(R, "Apply:table", site, why)
+		return
+	}
+	n := 0
+	for _, o := range outs {
+		if o.Term != "exit" || o.Exit != lp.Header {
+			continue
+		}
+		var test *bool
+		var testArg *Sym
+		for k, v := range o.Assign {
+			if s := o.AtomSyms[k]; s.Op == "call" && strings.Contains(s.Name, "Test") {
+				vv := v
+				test = &vv
+				testArg = s.Args[len(s.Args)-1]
+			}
+		}
+		n++
+		plusOne := false
+		var kNext *Sym
+		for j, pr := range lp.Header.Preds {
+			if pr == o.ExitFrom {
+				if bo, ok := iPhi.Edges[j].(*ssa.BinOp); ok && bo.Op == token.ADD && bo.X == ssa.Value(iPhi) {
+					if k, ok := constInt(bo.Y); ok && k == 1 {
+						plusOne = true
+					}
+				}
+				if b, off, ok := linDecomp(o.Val(iPhi.Edges[j])); ok && b != nil && b.String() == o.Val(iPhi).String() && off == 1 {
+					plusOne = true
+				}
+				kNext = o.Val(kPhi.Edges[j])
+			}
+		}
+		if !plusOne {
+			c.Bad(R, fmt.Sprintf("Apply:read-index#%d", n), site, "on some path the read index does not advance by exactly one: measurements are skipped without being tested, so a matching measurement can be dropped")
+			continue
+		}
+		if test == nil {
+			c.Bad(R, fmt.Sprintf("Apply:untested#%d", n), site, "an iteration path does not ask Test about the visited measurement ("+truncate(o.AssignStr(), 120)+")")
+			continue
+		}
+		key := fmt.Sprintf("Apply[Test(i)=%v]", *test)
+		kCur := o.Val(kPhi)
+		var errs []string
+		if *test {
+			if kNext == nil || kNext.Op != "call" || kNext.Name != "append" || len(kNext.Args) < 2 || kNext.Args[0].String() != kCur.String() {
+				errs = append(errs, "a matching measurement is not appended to the kept slice")
+			} else {
+				visited := false
+				for _, e := range kNext.Args[1:] {
+					if e.Op == "slice" && len(e.Args) > 0 {
+						// the variadic array: what was stored into it on this path
+						arr := e.Args[0].String()
+						for k, v := range o.Mem {
+							if strings.Contains(k, arr) && strings.Contains(v.String(), testArg.String()) && v.MentionsField(valuesF) {
+								visited = true
+							}
+						}
+					} else if strings.Contains(e.String(), testArg.String()) && e.MentionsField(valuesF) {
+						visited = true
+					}
+				}
+				if !visited && !strings.Contains(kNext.String(), testArg.String()) {
+					errs = append(errs, "the value kept is not the visited measurement")
+				}
+			}
+		} else if kNext == nil || kNext.String() != kCur.String() {
+			errs = append(errs, "a non-matching measurement is appended to the kept slice")
+		}
+		if len(errs) > 0 {
+			c.Bad(R, key, site, strings.Join(errs, "; "))
+		} else {
+			c.OK(R, key, site, "conforms")
+		}
+	}
+	c.Floor(R, "compaction cases", n, 2)
 }
